@@ -63,8 +63,36 @@ func mutate(r *Rng, env, donor *pb.Biscuit) mutation {
 	_ = attPub
 	setProofSecret := func(s []byte) { e.Proof = &pb.Proof{Content: &pb.Proof_NextSecret{NextSecret: s}} }
 	setProofFinal := func(s []byte) { e.Proof = &pb.Proof{Content: &pb.Proof_FinalSignature{FinalSignature: s}} }
-	kind := r.Intn(24)
+	kind := r.Intn(27)
 	switch kind {
+	case 24:
+		// a "next secret" in the shape of an expanded ed25519 private key (seed ‖ public key):
+		// anything ‖ the last announced key. No private key is needed to write this.
+		setProofSecret(append(r.Bytes(32), sbs[n-1].NextKey.Key...))
+		return mutation{"proof-expanded-key-shape", e}
+	case 25:
+		// next secrets of other lengths: the announced key itself, empty, 31, 33, 64 random bytes
+		switch r.Intn(5) {
+		case 0:
+			setProofSecret(append([]byte{}, sbs[n-1].NextKey.Key...))
+		case 1:
+			setProofSecret([]byte{})
+		case 2:
+			setProofSecret(r.Bytes(31))
+		case 3:
+			setProofSecret(r.Bytes(33))
+		default:
+			setProofSecret(r.Bytes(64))
+		}
+		return mutation{"proof-secret-other-length", e}
+	case 26:
+		// the true expanded private key of the last announced key (seed ‖ public): still not a 32-byte seed
+		if s := e.Proof.GetNextSecret(); len(s) == 32 {
+			setProofSecret(append(append([]byte{}, s...), sbs[n-1].NextKey.Key...))
+			return mutation{"proof-true-expanded-key", e}
+		}
+		setProofSecret(append(r.Bytes(32), sbs[n-1].NextKey.Key...))
+		return mutation{"proof-expanded-key-shape", e}
 	case 0:
 		sbs[i].Block = flipBit(sbs[i].Block, r)
 		return mutation{"flip-block", e}
@@ -378,7 +406,10 @@ func runC09(c *Ctx) {
 	pub, _ := rootKeys()
 	for i := 0; i < n; i++ {
 		g := newScenGen(r, r.Intn(2))
-		spec := TokenSpec{RootKeyID: Pick(r, []*uint32{nil, u32p(3)})}
+		spec := TokenSpec{RootKeyID: Pick(r, []*uint32{nil, nil, u32p(0), u32p(3), u32p(1<<32 - 1)})}
+		if r.Chance(1, 5) {
+			spec.Base = []string{"shared-a", "shared-b"} // a caller-supplied base table: the sealed *Biscuit must keep resolving through it
+		}
 		for j, nb := 0, 1+r.Intn(4); j < nb; j++ {
 			spec.Blocks = append(spec.Blocks, g.block(r.Intn(4), r.Intn(2), r.Intn(2)))
 		}
@@ -398,7 +429,7 @@ func runC09(c *Ctx) {
 		}
 		data, _ := tok.Serialize()
 		sdata, _ := sealed.Serialize()
-		reloaded, err := biscuit.Unmarshal(sdata)
+		reloaded, err := unmarshalWith(spec.Base, sdata)
 		if err != nil {
 			c.Violate("C09/sealed-unmarshal", "a sealed token does not unmarshal: "+err.Error(), map[string]interface{}{"bytes": hx(sdata)})
 			continue
@@ -429,6 +460,10 @@ func runC09(c *Ctx) {
 			c.NonTrivial(hx(sdata))
 		}
 		c.Count("panel:" + verdictClass(strings.SplitN(pu, " ", 2)[0]))
+		if len(spec.Base) > 0 {
+			c.Count("with-base-table")
+			continue // the CHAIN protocol carries no base table: envelope-level cases use default-table tokens
+		}
 		// verification twins through the model
 		for _, d := range [][]byte{data, sdata} {
 			sx := chainCaseSx(d, pub)
